@@ -79,25 +79,35 @@ func ruleCapLimit(c *Ctx) []Ob {
 		}
 	}
 	okTest := false
+	descLen := func(v ssa.Value) string {
+		v = stripConv(v)
+		if call, ok := v.(*ssa.Call); ok && isBuiltin(call, "len") {
+			switch call.Call.Args[0] {
+			case buf:
+				return "len(buf)"
+			case ret0:
+				return "len(ret)"
+			}
+		}
+		return path(v)
+	}
 	for _, b := range fn.Blocks {
 		iff, ok := b.Instrs[len(b.Instrs)-1].(*ssa.If)
 		if !ok {
 			continue
 		}
-		bo, ok := iff.Cond.(*ssa.BinOp)
-		if !ok || bo.Op != token.GTR {
-			continue
-		}
-		l1, ok1 := bo.X.(*ssa.Call)
-		l2, ok2 := bo.Y.(*ssa.Call)
-		if ok1 && ok2 && isBuiltin(l1, "len") && l1.Call.Args[0] == ret0 && isBuiltin(l2, "len") && l2.Call.Args[0] == buf {
-			okTest = edgeErrors(b.Succs[0])
-			// success edge returns len(ret)
+		for k := 0; k < 2; k++ {
+			l, op, r, ok := relOf(iff.Cond, k == 0, descLen)
+			if !ok || !(l == "len(buf)" && op == "<" && r == "len(ret)") {
+				continue
+			}
+			// this edge says the result does not fit
+			okTest = edgeErrors(b.Succs[k])
 			if okTest {
 				okRet := false
-				for cur := b.Succs[1]; cur != nil; {
-					if r, ok := cur.Instrs[len(cur.Instrs)-1].(*ssa.Return); ok {
-						if lc, ok := r.Results[0].(*ssa.Call); ok && isBuiltin(lc, "len") && lc.Call.Args[0] == ret0 {
+				for cur := b.Succs[1-k]; cur != nil; {
+					if rt, ok := cur.Instrs[len(cur.Instrs)-1].(*ssa.Return); ok {
+						if descLen(rt.Results[0]) == "len(ret)" {
 							okRet = true
 						}
 						break
@@ -184,19 +194,24 @@ func (c *Ctx) encodeClosure() *encClosure {
 				if !ok {
 					continue
 				}
-				// sd == nil (first use), sd from getStructDesc
-				if (bo.Op == token.EQL && cd.Truth || bo.Op == token.NEQ && !cd.Truth) && isNilConst(bo.Y) {
-					if call, ok := bo.X.(*ssa.Call); ok && call.Call.StaticCallee() != nil && strings.Contains(call.Call.StaticCallee().Name(), "etStructDesc") {
-						ec.exempt[b] = "first-use"
-					}
-					if call, ok := bo.X.(*ssa.Call); ok && call.Call.StaticCallee() != nil && shortFn(call.Call.StaticCallee()) == "mapStructDesc.Get" {
-						ec.exempt[b] = "first-use"
-					}
+				isEq := bo.Op == token.EQL && cd.Truth || bo.Op == token.NEQ && !cd.Truth
+				if !isEq {
+					continue
 				}
-				// rv.Kind() == reflect.Struct (by-value argument)
-				if bo.Op == token.EQL && cd.Truth {
-					if call, ok := bo.X.(*ssa.Call); ok && call.Call.StaticCallee() != nil && call.Call.StaticCallee().Name() == "Kind" && fnPkgPath(call.Call.StaticCallee()) == "reflect" {
-						if v, ok := constInt(bo.Y); ok && v == structKind {
+				for _, pr := range [][2]ssa.Value{{bo.X, bo.Y}, {bo.Y, bo.X}} {
+					x, y := pr[0], pr[1]
+					call, ok := x.(*ssa.Call)
+					if !ok || call.Call.StaticCallee() == nil {
+						continue
+					}
+					cf := call.Call.StaticCallee()
+					// sd == nil (first use), sd from the lock-free lookup
+					if isNilConst(y) && (strings.Contains(cf.Name(), "etStructDesc") || shortFn(cf) == "mapStructDesc.Get") {
+						ec.exempt[b] = "first-use"
+					}
+					// rv.Kind() == reflect.Struct (by-value argument)
+					if cf.Name() == "Kind" && fnPkgPath(cf) == "reflect" {
+						if v, ok := constInt(y); ok && v == structKind {
 							ec.exempt[b] = "by-value"
 						}
 					}
